@@ -261,7 +261,19 @@ Exec ==
        [] i.op = "callr" ->
             IF i.r1 \notin Regs THEN MachErr("unknown-register")
             ELSE LET t == reg[i.r1]  c == Sp[2]  o == Sp[3] - 8 IN
-            IF t[1] # "FUNC" THEN PropErr("trampoline-calls-something-that-is-not-the-coroutine-function")
+            IF t[1] = "EXITFN"      \* the exit function entered by a call instead of a jump: it sees the stack one return address deeper
+              THEN IF ~InRange(o, 8) THEN MachErr("stack-deeper-than-the-model")
+                   ELSE /\ chk' = [kind |-> "exit", c |-> t[2],
+                                   who |-> (t[2] = run /\ c = run),
+                                   arg |-> (reg["rdi"] = V("rv", run, 0, 0)),
+                                   align |-> (((BaseMod(c) + o + 1600) % 16) = 8)]
+                        /\ mem' = Wr64(mem, c, o, V("code", pc + 1, 0, 0))
+                        /\ reg' = [reg EXCEPT !["rsp"] = V("stk", c, o, 0)]
+                        /\ exiting' = [exiting EXCEPT ![run] = TRUE]
+                        /\ live' = [live EXCEPT ![run] = o]
+                        /\ mode' = "user"
+                        /\ Keep(<<run, pc, mxcsr, flags, slot, phase, infunc, ep, saved, entry, inflight, target, nsw, prop, mach>>)
+            ELSE IF t[1] # "FUNC" THEN PropErr("trampoline-calls-something-that-is-neither-the-coroutine-function-nor-the-exit-function")
             ELSE IF ~InRange(o, 8) THEN MachErr("stack-deeper-than-the-model")
             ELSE /\ mem' = Wr64(mem, c, o, V("code", pc + 1, 0, 0))
                  /\ reg' = [reg EXCEPT !["rsp"] = V("stk", c, o, 0)]
